@@ -1,6 +1,6 @@
 (* Props/C06.v -- property theorems only *)
 From Coq Require Import ZArith List.
-From Falcon Require Import Base.Res IL.Const IL.Expr IL.Func Exec.Sem Lift.Lang Lift.Recover Lift.C06Check Lift.RecoverProofs.
+From Falcon Require Import Base.Res IL.Const IL.Expr IL.Func Exec.Sem Lift.Lang Lift.LangSem Lift.Recover Lift.C06Check Lift.RecoverProofs.
 Import ListNotations.
 
 (* 1. the validator run on every recovered function is sound: acceptance means the two graphs read exactly
@@ -51,3 +51,74 @@ Print Assumptions lang_bisim_exec_sem.
 Theorem recover_names_ok : forall tb fa manual f, recover tb fa manual = Ok f -> names_ok (f_cfg f) = true.
 Proof. exact RecoverProofs.recover_names_ok. Qed.
 Print Assumptions recover_names_ok.
+
+(* 6. lang_eq_exec for Exec/Sem.v itself.  sem_obs m f st = the (instruction item, state after it) list read off
+      Sem.sem_run m f (entry location) st.  If the checker accepts the graphs of two functions (so their languages
+      are equal, theorem 1), both are det and pass the executable well-formedness test sem_wf (unique instruction
+      index fields per block, one edge per (head, tail), edge tails and entry exist, no cycle of unguarded
+      single-successor empty blocks), then from every initial state every finite Sem run of one is matched by a
+      Sem run of the other that executed exactly the same instructions (address, operation) through exactly the
+      same states. *)
+Theorem lang_eq_exec_sem : forall f1 f2,
+  lang_bisim (f_cfg f1) (f_cfg f2) = true -> det (f_cfg f1) = true -> det (f_cfg f2) = true ->
+  sem_wf (f_cfg f1) = true -> sem_wf (f_cfg f2) = true ->
+  forall st, (forall m1, exists m2, sem_obs m1 f1 st = sem_obs m2 f2 st) /\
+             (forall m2, exists m1, sem_obs m1 f1 st = sem_obs m2 f2 st).
+Proof.
+  intros f1 f2 LB D1 D2 W1 W2. apply LangSem.lang_eq_exec_sem; try assumption; apply sem_wf_sound; assumption.
+Qed.
+Print Assumptions lang_eq_exec_sem.
+
+(* the link used by 6: Sem runs of one function are exactly the runs of the position-level executor of theorem 4 *)
+Theorem sem_pexec_link : forall f e, sem_wf (f_cfg f) = true -> g_entry (f_cfg f) = Some e ->
+  (forall m st, exists n, sem_obs m f st = ins_only (fst (sem_pexec (f_cfg f) (silent_fuel (f_cfg f)) n (e, O) st))) /\
+  (forall n st, exists m, ins_only (fst (sem_pexec (f_cfg f) (silent_fuel (f_cfg f)) n (e, O) st)) = sem_obs m f st).
+Proof. intros f e W. apply LangSem.sem_pexec_link. apply sem_wf_sound. exact W. Qed.
+Print Assumptions sem_pexec_link.
+
+(* 7. recover_struct, clause "every reachable address contributes its IL exactly once".
+      (a) without any hypothesis on the block translator: one instruction graph per distinct lifted address *)
+Theorem recover_once : forall tb fa manual f, recover tb fa manual = Ok f ->
+  exists results L,
+    discover tb (discover_fuel tb manual) (fa :: flat_map (fun m => [mm_head m; mm_tail m]) manual) [] = Ok results /\
+    NoDup (map fst L) /\
+    (forall x, In x L -> exists a r, In (a, r) results /\ In x (br_instrs r)) /\
+    (forall a r x, In (a, r) results -> In x (br_instrs r) -> In (fst x) (map fst L)) /\
+    all_items (f_cfg f) = flat_map (fun x => all_items (snd x)) L.
+Proof. exact RecoverProofs.recover_once. Qed.
+Print Assumptions recover_once.
+
+(*    (b) under tb_spec -- every block translation is a straight-line run of the program's instructions from its
+      start address, ended by the first control transfer or cut ANYWHERE before it (so for every placement of the
+      64-byte windows) -- the items of the recovered function are the disjoint union, over EXACTLY the addresses
+      reachable from the function address and the manual-edge endpoints through direct successors, of the items
+      of that address's instruction graph (the empty block for an unmapped address) *)
+Theorem recover_struct_once : forall prog tb fa manual f, tb_spec prog tb -> recover tb fa manual = Ok f ->
+  let roots := fa :: flat_map (fun m => [mm_head m; mm_tail m]) manual in
+  exists L, NoDup (map fst L) /\
+    (forall x, In x (map fst L) <-> reach prog roots x) /\
+    (forall x ig, In (x, ig) L -> ig = graph_at prog x) /\
+    all_items (f_cfg f) = flat_map (fun x => all_items (snd x)) L.
+Proof. exact RecoverProofs.recover_struct_once. Qed.
+Print Assumptions recover_struct_once.
+
+(* tb_spec is satisfiable: a two-instruction program (add; halt) lifted as one block or as two *)
+Example tb_spec_example :
+  let g := empty_block_cfg in
+  let prog := fun a : Z => if (a =? 0)%Z then Some (mkmi g 4%Z None) else if (a =? 4)%Z then Some (mkmi g 4%Z (Some [])) else None in
+  tb_spec prog [(0, Ok (mkbr [(0, g); (4, g)] [])); (4, Ok (mkbr [(4, g)] []))]%Z /\
+  tb_spec prog [(0, Ok (mkbr [(0, g)] [(4, None)])); (4, Ok (mkbr [(4, g)] []))]%Z.
+Proof.
+  cbv zeta. split; intros a; cbn [tb_lookup].
+  - destruct (Z.eqb_spec 0%Z a) as [<-|N0].
+    { cbn [br_instrs br_succ]. apply (rs_cons _ 0%Z (mkmi empty_block_cfg 4%Z None) _ _ eq_refl eq_refl).
+      apply (rs_ctl _ 4%Z (mkmi empty_block_cfg 4%Z (Some [])) [] eq_refl eq_refl). }
+    destruct (Z.eqb_spec 4%Z a) as [<-|N4].
+    { apply (rs_ctl _ 4%Z (mkmi empty_block_cfg 4%Z (Some [])) [] eq_refl eq_refl). }
+    destruct (Z.eqb_spec a 0%Z); [congruence|]. destruct (Z.eqb_spec a 4%Z); [congruence | reflexivity].
+  - destruct (Z.eqb_spec 0%Z a) as [<-|N0].
+    { apply (rs_cut _ 0%Z (mkmi empty_block_cfg 4%Z None) eq_refl eq_refl). }
+    destruct (Z.eqb_spec 4%Z a) as [<-|N4].
+    { apply (rs_ctl _ 4%Z (mkmi empty_block_cfg 4%Z (Some [])) [] eq_refl eq_refl). }
+    destruct (Z.eqb_spec a 0%Z); [congruence|]. destruct (Z.eqb_spec a 4%Z); [congruence | reflexivity].
+Qed.
